@@ -1,5 +1,61 @@
 (* C01 — receive integrity.  Only statements, `exact` and Print Assumptions. *)
-From GV Require Import Base.Bytes Base.Hex Base.LE Vedirect.Frame Vedirect.FrameFacts.
+From GV Require Import Base.Bytes Base.Hex Base.LE Vedirect.Frame Vedirect.FrameFacts
+     Vedirect.Port Vedirect.Driver Vedirect.DriverSpec.
+
+(* THE PROPERTY, on the bytes received.  For every logger configuration, driver state (any
+   stale buffered bytes), address, idle flag and device script (any events, any write /
+   read / flush faults, any number of retries): if the raw accessor returns a value v then
+   (bytes buffered before the call ++ bytes handed out by the port during the call)
+   contain, contiguously, ':' body '\n' with body a valid Get response (type 7, correct
+   check byte, either hex case) for the requested address with flag 0 whose value is
+   exactly v. *)
+Theorem C01_get_sound :
+  forall c idle addr s v s',
+    ve_command_get c idle addr s = (Ok v, s') ->
+    exists d pre body post,
+      delivered (pt s') = delivered (pt s) ++ d /\
+      rbuf (rd s) ++ d = pre ++ c_colon :: body ++ c_nl :: post /\
+      valid_get_response (addr mod 65536) v body.
+Proof. exact ve_command_get_sound. Qed.
+Print Assumptions C01_get_sound.
+
+(* the typed accessors return exactly the decoding of such a frame's value *)
+Theorem C01_uint_sound :
+  forall c idle addr s n s', get_uint c idle addr s = (Ok (VNum n), s') ->
+  exists v d pre body post, n = le_uint v /\
+    delivered (pt s') = delivered (pt s) ++ d /\
+    rbuf (rd s) ++ d = pre ++ c_colon :: body ++ c_nl :: post /\
+    valid_get_response (addr mod 65536) v body.
+Proof. exact get_uint_sound. Qed.
+Print Assumptions C01_uint_sound.
+
+Theorem C01_int_sound :
+  forall c idle addr s n s', get_int c idle addr s = (Ok (VNum n), s') ->
+  exists v d pre body post, le_int v = Some n /\
+    delivered (pt s') = delivered (pt s) ++ d /\
+    rbuf (rd s) ++ d = pre ++ c_colon :: body ++ c_nl :: post /\
+    valid_get_response (addr mod 65536) v body.
+Proof. exact get_int_sound. Qed.
+Print Assumptions C01_int_sound.
+
+Theorem C01_string_sound :
+  forall c idle addr s t s', get_string c idle addr s = (Ok (VBytes t), s') ->
+  exists v d pre body post, t = strip_nul v /\
+    delivered (pt s') = delivered (pt s) ++ d /\
+    rbuf (rd s) ++ d = pre ++ c_colon :: body ++ c_nl :: post /\
+    valid_get_response (addr mod 65536) v body.
+Proof. exact get_string_sound. Qed.
+Print Assumptions C01_string_sound.
+
+(* the device-id query: a Done (type 1) frame whose first two payload bytes are the id *)
+Theorem C01_device_id_sound :
+  forall c idle s id s', get_device_id c idle s = (Ok (VNum id), s') ->
+  exists d pre body post lo hi rest,
+    delivered (pt s') = delivered (pt s) ++ d /\
+    rbuf (rd s) ++ d = pre ++ c_colon :: body ++ c_nl :: post /\
+    valid_response 1 body (lo :: hi :: rest) /\ id = bz lo + 256 * bz hi.
+Proof. exact get_device_id_sound. Qed.
+Print Assumptions C01_device_id_sound.
 
 (* Whatever line the driver accepts as the answer to command [cmd] is a valid response of
    the expected type: one hex nibble of that type, hex pairs of either case, correct check
